@@ -374,7 +374,7 @@ func C16(c *core.Ctx) {
 	if c.Thorough() {
 		dev = 2
 	}
-	c.Rep.Bound = fmt.Sprintf("SCHED: end cause (DISCONNECT, cut, keep-alive expiry in virtual time, garbage packet, Server.Close) x buffer condition (idle; own outbound ring full with a client that stopped reading; publisher held up by a third party's full ring; 2/5/9 publishers held up by one stalled subscriber that connected last, then Server.Close; cross-blocked pair; packet larger than the ring can take; partial packet in the inbound ring) x order of the ends; set-up under the default schedule, from the first ending action on every schedule that deviates from the default schedule at <= %d points", dev)
+	c.Rep.Bound = fmt.Sprintf("SCHED: end cause (DISCONNECT, cut, keep-alive expiry in virtual time, garbage packet, Server.Close) x buffer condition (idle; own outbound ring full with a client that stopped reading; publisher held up by a third party's full ring; 2/5/9 publishers held up by one stalled subscriber that connected last, then Server.Close; cross-blocked pair; packet larger than the ring can take; partial packet in the inbound ring) x order of the ends; plus (default schedule) every hostile byte stream of C05 as the last bytes of a connection, then a cut; set-up under the default schedule, from the first ending action on every schedule that deviates from the default schedule at <= %d points", dev)
 	c.Rep.Rule = "oracle at quiescence (reached without further environment action = bounded time): the goroutines of every ended connection are gone, its clean session is out of the store, its subscription out of the topic tree, its will published (not after DISCONNECT), Server.Close has returned and then no library goroutine remains; a publisher that was held up by the ended subscriber answers a PINGREQ again"
 	for _, sc := range tdScenarios(c.Thorough()) {
 		if !c.Mine() {
@@ -431,6 +431,10 @@ func C16(c *core.Ctx) {
 		return
 	}
 	c16closeVsConnect(c, dev)
+	if c.HasViolation() || c.Expired() {
+		return
+	}
+	c16hostile(c)
 }
 
 // c16closeVsConnect: Server.Close races a client that is just connecting.
